@@ -18,6 +18,9 @@ proof gate (`Lemmas/BridgeC20.lean` compares with the table regenerated from the
 
 Switching after `fixes/C20-uge.patch`: delete `.ugeEmitsGt`.  After `fixes/C20-section-loop.patch`:
 delete `.sectionLoopStuck`.  After `fixes/C20-ubo-signed-flag.patch`: delete `.uboTestsSignedFlag`.
+After `fixes/C20-switch-ldmov.patch`: delete `.missingOpcodes`.  The section-loop and the ubo patch also
+change reviewed source texts: re-run `python3 translate/c20_tables.py --canon` (rewrites
+Model/Mir2CPinned.lean from the patched tree) after reading the diff of that file.
 -/
 namespace MirVerif.Mir2C
 
@@ -56,9 +59,13 @@ def loopFixed : Bool := !knownDeviations.contains .sectionLoopStuck
 
 def expectedAdvance : String := if loopFixed then "curr_item" else "item"
 
-/-- opcodes without a template today (finish_func accepts them in single-result functions) -/
+/-- `MIR_UNSPEC` (a target-specific instruction with no portable C meaning) is accepted by
+`MIR_finish_func` but lies outside C20's vocabulary; it is the one permanent exclusion of `coverage` -/
+def outsideVocabulary : List String := ["UNSPEC"]
+
+/-- opcodes without a `case` in `out_insn` (in the order of `MIR_insn_code_t`) -/
 def expectedMissing : List String :=
-  if knownDeviations.contains .missingOpcodes then ["LDMOV", "SWITCH", "UNSPEC"] else []
+  (if knownDeviations.contains .missingOpcodes then ["LDMOV", "SWITCH"] else []) ++ outsideVocabulary
 
 /-- is the flag `UBO` tests after `ADDO/SUBO[S]` the signed one -/
 def unsignedFlagFromSigned : Bool := knownDeviations.contains .uboTestsSignedFlag
